@@ -72,7 +72,9 @@ def extract(repo, profile='dev', target_dir=None, use_cache=True, log=None):
     repo = os.path.abspath(repo)
     th = tree_hash(repo)
     is_main = (repo == '/repo')
-    tag = th[:24]
+    with open(os.path.join(VERIF, 'engine', 'driver', 'src', 'main.rs'), 'rb') as fh:
+        drv = hashlib.sha256(fh.read()).hexdigest()
+    tag = hashlib.sha256((th + drv).encode()).hexdigest()[:24]
     outdir = os.path.join(CACHE, 'facts', tag, profile)
     os.makedirs(os.path.join(CACHE, 'facts'), exist_ok=True)
     lock = open(os.path.join(CACHE, 'extract.lock' if is_main else 'extract-scratch.lock'), 'w')
